@@ -14,6 +14,11 @@ for n in sorted(os.listdir(os.path.join(V, "seeded"))):
     needs = m.get("needs_short") or m.get("needs", "")
     det = {1: "**alarm**", 0: "silent (miss)"}.get(chk.get("exit"), f"exit {chk.get('exit')}")
     inv = (chk.get("detail") or "").split(" observed=")[0].replace("invariant=", "").replace("configuration=", "config ")
+    others = (m.get("verification") or {}).get("reported_by_other_checks") or {}
+    hit = [k for k, v in sorted(others.items()) if v.get("exit") == 1]
+    if chk.get("exit") == 0 and hit:
+        det = f"**alarm** by {', '.join(hit)} (silent in {m['property']})"
+        inv = (others[hit[0]].get("detail") or "").split(" observed=")[0].replace("invariant=", "").replace("configuration=", "config ")
     out.append(f"| {n} | {m['property']} | {needs} | {'yes' if m.get('confirmed') else 'NO'} | {det} | {inv[:70]} |")
 print("\n".join(out))
 print()
